@@ -6,3 +6,6 @@ fp("dask/array/core.py", "normalize_chunks", "auto_chunks", "blockdims_from_bloc
 fp("dask/array/rechunk.py", "cumdims_label", "_breakpoints", "_intersect_1d", "old_to_new", "intersect_chunks",
    "rechunk", "plan_rechunk", "divide_to_width", "merge_to_number", "find_merge_rechunk",
    "find_split_rechunk", "estimate_graph_size", "_compute_rechunk", "_balance_chunksizes")
+fp("dask/array/creation.py", "arange", "linspace", "eye", "diag", "diagonal", "tri", "indices", "meshgrid", "fromfunction")
+fp("dask/array/chunk.py", "arange", "linspace")
+fp("dask/array/wrap.py", "_parse_wrap_args", "wrap_func_shape_as_first_arg", "wrap_func_like", "full", "full_like")
